@@ -406,6 +406,13 @@ def run_case(case, ctx):
                         ref = ref + lik.second_noise.unsqueeze(-1) * torch.eye(ns)
                     ctx.close("likelihood_adds_noise", add, ref.expand(add.shape), "direct", cls="lik:" + case["lik"])
             ctx.expect("inputs_not_mutated", all(bool(torch.equal(a_.detach(), b_)) for a_, b_ in zip((X, y, xs), _before)), "prediction changed the training inputs / targets / test inputs in place")
+            if case["seed"] % 3 == 0 and not (sd.get("fast_pred_var") and sd.get("max_cholesky_size") == 0):
+                # the same test-input BUFFER refilled in place, second call on the same model (caches are now warm): the
+                # post-condition on ExactGP.__call__ decides this call like the first
+                with torch.no_grad():
+                    xs.copy_(xs + 0.37 * util.randn(util.gen(case["seed"] + 5), *xs.shape))
+                model(xs)
+                ctx.hit("second_call_refilled_buffer")
     finally:
         _ST["case"] = None
     cell = {k: v for k, v in case.items() if k not in ("seed", "hostile")}
